@@ -322,6 +322,224 @@ theorem varTypeOrigin_const (ws base targs ptr : Str) (hS : ∀ c ∈ ws, isSpac
   rw [hd]
   simp
 
+/-! ### `Param.var_type_origin` on EVERY text -/
+
+/-- the longest run of name characters `[A-Za-z0-9_:]` at the start -/
+def nameRun (s : Str) : Str := s.takeWhile isNameChar
+
+/-- where the name is read: behind `const` + white space when a name follows there, else at the start -/
+def nameStart (s : Str) : Nat :=
+  if Str.startsWith s constWord then
+    let ws := (s.drop 5).takeWhile Regex.isSpaceChar
+    if ws ≠ [] ∧ nameRun ((s.drop 5).dropWhile Regex.isSpaceChar) ≠ [] then 5 + ws.length else 0
+  else 0
+
+/-- `Param.VarType.search(s)[2]` read directly -/
+def varTypeGroup2Spec (s : Str) : Except VErr Str :=
+  if nameRun (s.drop (nameStart s)) = [] then .error .TypeError else .ok (nameRun (s.drop (nameStart s)))
+
+/-- `var_type_origin` read directly -/
+def varTypeOriginSpec (s : Str) : Except VErr Str :=
+  if Str.startsWith s constBlank || Str.endsWith s ['*'] || Str.endsWith s ['&'] then varTypeGroup2Spec s
+  else .ok (beforeLt s)
+
+theorem setW_eq (c : Char) : setW.matches c = isNameChar c := by
+  have hd : ∀ x ∈ (['0','1','2','3','4','5','6','7','8','9'] : List Char), x ∈ Regex.wordChars := by decide
+  simp only [setW, CharSet.matches, SetItem.matches, List.any_cons, List.any_nil, Bool.or_false, isNameChar,
+    Regex.isWordChar, Regex.isDigitChar]
+  by_cases hw : c ∈ Regex.wordChars
+  · simp [hw]
+  · have hnd : ∀ x ∈ (['0','1','2','3','4','5','6','7','8','9'] : List Char), c ≠ x := fun x hx e => hw (e ▸ hd x hx)
+    simp [hw, hnd '0' (by decide), hnd '1' (by decide), hnd '2' (by decide), hnd '3' (by decide), hnd '4' (by decide),
+      hnd '5' (by decide), hnd '6' (by decide), hnd '7' (by decide), hnd '8' (by decide), hnd '9' (by decide)]
+    by_cases h : c = ':' <;> simp [h]
+
+theorem startsWith_split : ∀ (s p : Str), Str.startsWith s p = true → ∃ t, s = p ++ t := by
+  intro s p
+  induction p generalizing s with
+  | nil => intro _; exact ⟨s, rfl⟩
+  | cons x p ih =>
+    intro h
+    cases s with
+    | nil => simp [Str.startsWith] at h
+    | cons c cs =>
+      simp only [Str.startsWith, Bool.and_eq_true, decide_eq_true_eq] at h
+      obtain ⟨t, ht⟩ := ih cs h.2
+      exact ⟨t, by rw [h.1, ht]; rfl⟩
+
+theorem dropWhile_head (p : Char → Bool) : ∀ (l : Str) (c : Char), (l.dropWhile p).head? = some c → p c = false := by
+  intro l
+  induction l with
+  | nil => intro c h; simp at h
+  | cons x xs ih =>
+    intro c h
+    by_cases hx : p x = true
+    · simp only [List.dropWhile_cons, hx, if_true] at h; exact ih c h
+    · simp only [List.dropWhile_cons, hx] at h
+      simp only [Bool.false_eq_true, if_false, List.head?_cons, Option.some.injEq] at h
+      rw [← h]; simpa using hx
+
+theorem takeWhile_all (p : Char → Bool) : ∀ (l : Str), ∀ c ∈ l.takeWhile p, p c = true := by
+  intro l
+  induction l with
+  | nil => intro c h; simp at h
+  | cons x xs ih =>
+    intro c h
+    by_cases hx : p x = true
+    · simp only [List.takeWhile_cons, hx, if_true, List.mem_cons] at h
+      rcases h with h | h
+      · rw [h]; exact hx
+      · exact ih c h
+    · simp [hx] at h
+
+theorem takeWhile_nil_head (p : Char → Bool) (l : Str) (h : l.takeWhile p = []) : ∀ c, l.head? = some c → p c = false := by
+  intro c hc
+  cases l with
+  | nil => simp at hc
+  | cons x xs =>
+    simp only [List.head?_cons, Option.some.injEq] at hc
+    subst hc
+    by_cases hx : p x = true
+    · simp [hx] at h
+    · simpa using hx
+
+/-- behind `j ≥ 1` white-space characters of `ws ++ r` (white space, then something else that is no name character when
+    there was white space) no name character follows -/
+theorem drop_head_notW : ∀ (ws r : Str), (∀ c ∈ ws, Regex.isSpaceChar c = true) →
+    (∀ c, r.head? = some c → Regex.isSpaceChar c = false) → (ws ≠ [] → ∀ c, r.head? = some c → setW.matches c = false) →
+    ∀ (j : Nat), 1 ≤ j → j ≤ (ws ++ r).length → (∀ c ∈ (ws ++ r).take j, Regex.isSpaceChar c = true) →
+    ∀ c, ((ws ++ r).drop j).head? = some c → setW.matches c = false := by
+  intro ws
+  induction ws with
+  | nil =>
+    intro r _ hr0 _ j hj1 hj hall c _
+    exfalso
+    cases r with
+    | nil => simp at hj; omega
+    | cons x xs =>
+      obtain ⟨j', rfl⟩ : ∃ j', j = j' + 1 := ⟨j - 1, by omega⟩
+      have := hall x (by simp)
+      rw [hr0 x rfl] at this; cases this
+  | cons w ws ih =>
+    intro r hS hr0 hrW j hj1 hj hall c hc
+    obtain ⟨j', rfl⟩ : ∃ j', j = j' + 1 := ⟨j - 1, by omega⟩
+    have hrW' := hrW (by simp)
+    simp only [List.cons_append, List.drop_succ_cons] at hc
+    by_cases hj0 : j' = 0
+    · subst hj0
+      simp only [List.drop_zero] at hc
+      cases ws with
+      | nil => exact hrW' c hc
+      | cons w2 ws2 =>
+        simp only [List.cons_append, List.head?_cons, Option.some.injEq] at hc
+        rw [← hc]; exact space_not_setW w2 (hS w2 (by simp))
+    · exact ih r (fun x hx => hS x (by simp [hx])) hr0 (fun _ => hrW') j' (by omega)
+        (by simp only [List.cons_append, List.length_cons] at hj; omega)
+        (fun x hx => hall x (by simp only [List.cons_append, List.take_succ_cons, List.mem_cons]; exact Or.inr hx)) c hc
+
+/-- when the optional `const` group cannot be taken, the name is read at the start -/
+theorem varTypeGroup2_fallback (s : Str)
+    (hfb : ∀ g x5, s = constWord ++ x5 → ∀ j, 1 ≤ j → j ≤ x5.length → (∀ c ∈ x5.take j, Regex.isSpaceChar c = true) →
+      ∀ p c, mAux g reName (x5.drop j) p c kfin = none) :
+    varTypeGroup2 s = if nameRun s = [] then .error .TypeError else .ok (nameRun s) := by
+  have hsplit : s = s.takeWhile setW.matches ++ s.dropWhile setW.matches := (List.takeWhile_append_dropWhile).symm
+  have hrun : nameRun s = s.takeWhile setW.matches := by
+    unfold nameRun; congr 1; funext c; exact (setW_eq c).symm
+  have hafter : ∀ c, (s.dropWhile setW.matches).head? = some c → setW.matches c = false := dropWhile_head _ s
+  by_cases hn : nameRun s = []
+  · rw [if_pos hn]
+    apply varTypeGroup2_none
+    intro f
+    have hhead : ∀ c, s.head? = some c → setW.matches c = false := takeWhile_nil_head _ s (by rw [← hrun]; exact hn)
+    cases f with
+    | zero => rw [mAux_zero]
+    | succ f =>
+      cases f with
+      | zero => rw [mAux_seq, mAux_zero]
+      | succ f =>
+        rw [optConst_fallback (f + 2) s (by omega) (fun x5 hx j h1 h2 h3 p c => hfb _ x5 hx j h1 h2 h3 p c)]
+        exact name_fail _ s 0 [] hhead
+  · rw [if_neg hn]
+    have hb : s.takeWhile setW.matches ≠ [] := by rw [← hrun]; exact hn
+    have := varTypeGroup2_of s 0 (0 + (s.takeWhile setW.matches).length) (fun f hf => by
+      obtain ⟨p', hp⟩ := name_ok (f - 1) (s.takeWhile setW.matches) (s.dropWhile setW.matches) 0 [] hb (takeWhile_all _ s) hafter
+        (by rw [← hsplit]; omega)
+      rw [← hsplit] at hp
+      exact ⟨p', [], by rw [optConst_fallback f s (by omega) (fun x5 hx j h1 h2 h3 p c => hfb _ x5 hx j h1 h2 h3 p c)]; exact hp⟩)
+    rw [this, hrun]
+    have e : List.take (s.takeWhile setW.matches).length (s.takeWhile setW.matches ++ s.dropWhile setW.matches)
+        = s.takeWhile setW.matches := List.take_left
+    rw [← hsplit] at e
+    simp [e]
+
+/-- `Param.VarType.search(s)[2]` on EVERY text: the generated regular expression run by the backtracking matcher reads
+    exactly what the direct scanner reads -/
+theorem varTypeGroup2_spec (s : Str) : varTypeGroup2 s = varTypeGroup2Spec s := by
+  unfold varTypeGroup2Spec nameStart
+  by_cases hc : Str.startsWith s constWord = true
+  · obtain ⟨x5, rfl⟩ := startsWith_split s constWord hc
+    have hd5 : (constWord ++ x5).drop 5 = x5 := rfl
+    rw [if_pos hc]
+    simp only [hd5]
+    have hx5 : x5 = x5.takeWhile Regex.isSpaceChar ++ x5.dropWhile Regex.isSpaceChar := (List.takeWhile_append_dropWhile).symm
+    have hr0 : ∀ c, (x5.dropWhile Regex.isSpaceChar).head? = some c → Regex.isSpaceChar c = false := dropWhile_head _ x5
+    have hS : ∀ c ∈ x5.takeWhile Regex.isSpaceChar, Regex.isSpaceChar c = true := takeWhile_all _ x5
+    by_cases hA : x5.takeWhile Regex.isSpaceChar ≠ [] ∧ nameRun (x5.dropWhile Regex.isSpaceChar) ≠ []
+    · -- `const` + white space + name
+      rw [if_pos hA]
+      generalize hws : x5.takeWhile Regex.isSpaceChar = ws at hx5 hS hA
+      generalize hr : x5.dropWhile Regex.isSpaceChar = r at hx5 hr0 hA
+      have hrun : nameRun r = r.takeWhile setW.matches := by
+        unfold nameRun; congr 1; funext c; exact (setW_eq c).symm
+      have hrsplit : r = r.takeWhile setW.matches ++ r.dropWhile setW.matches := (List.takeWhile_append_dropWhile).symm
+      have hb : r.takeWhile setW.matches ≠ [] := by rw [← hrun]; exact hA.2
+      have hshape : constWord ++ x5 = 'c' :: 'o' :: 'n' :: 's' :: 't' :: (ws ++ (r.takeWhile setW.matches ++ r.dropWhile setW.matches)) := by
+        rw [← hrsplit, ← hx5]; rfl
+      have := varTypeGroup2_of (constWord ++ x5) (5 + ws.length) (5 + ws.length + (r.takeWhile setW.matches).length) (fun f hf => by
+        rw [hshape]
+        exact optConst_take f ws _ _ hA.1 hS hb (takeWhile_all _ r) (dropWhile_head _ r) (by
+          rw [hshape] at hf; simp only [List.length_cons] at hf; omega))
+      rw [this]
+      have hdrop : (constWord ++ x5).drop (5 + ws.length) = r := by
+        rw [hx5]
+        have e : constWord ++ (ws ++ r) = (constWord ++ ws) ++ r := by simp
+        have l : 5 + ws.length = (constWord ++ ws).length := by simp [constWord]; omega
+        rw [e, l, List.drop_left]
+      rw [hdrop, if_neg hA.2, hrun]
+      have e : List.take (r.takeWhile setW.matches).length (r.takeWhile setW.matches ++ r.dropWhile setW.matches)
+          = r.takeWhile setW.matches := List.take_left
+      rw [← hrsplit] at e
+      simp [e]
+    · -- the group is given back: the name is read from the start (`const` itself at least)
+      rw [if_neg hA]
+      simp only [List.drop_zero]
+      apply varTypeGroup2_fallback
+      intro g y5 hy j hj1 hj hall p c
+      have hy5 : y5 = x5 := List.append_cancel_left hy.symm
+      rw [hy5] at hj hall ⊢
+      apply name_fail
+      have key := drop_head_notW (x5.takeWhile Regex.isSpaceChar) (x5.dropWhile Regex.isSpaceChar) hS hr0 (fun hne c' hc' => by
+        have hnr : nameRun (x5.dropWhile Regex.isSpaceChar) = [] := by
+          cases hq : nameRun (x5.dropWhile Regex.isSpaceChar) with
+          | nil => rfl
+          | cons a b => exact absurd ⟨hne, by rw [hq]; simp⟩ hA
+        have := takeWhile_nil_head isNameChar _ hnr c' hc'
+        rw [setW_eq]; exact this) j hj1 (by rw [← hx5]; exact hj) (by rw [← hx5]; exact hall)
+      rw [← hx5] at key
+      exact key
+  · rw [if_neg hc]
+    simp only [List.drop_zero]
+    apply varTypeGroup2_fallback
+    intro g x5 hx
+    exfalso
+    apply hc
+    rw [hx]; exact startsWith_append _ _
+
+/-- `var_type_origin` on EVERY text equals the direct reading -/
+theorem varTypeOrigin_spec (s : Str) : varTypeOrigin s = varTypeOriginSpec s := by
+  unfold varTypeOrigin varTypeOriginSpec
+  rw [varTypeGroup2_spec]
+
 /-! ### parameter text → `Param.parse` → `var_type` → `var_type_origin` -/
 
 /-- the characters of `s` as atoms in front of `r` -/
